@@ -337,4 +337,28 @@ theorem objLabels_spec (p : KV) (hn : NoDupKeys p) {k v : Bytes} (h : (k, v) ∈
       simp [objStep, hp, lookup_setKV_self]
     · exact ih hn'.2 h _
 
+/-! ### octal numerals -/
+
+/-- positional value of a list of octal digits, most significant first. -/
+def octValue (ds : List Nat) (acc : Nat) : Nat := ds.foldl (fun a d => a * 8 + d) acc
+
+theorem digitVal_digitChar : ∀ d, d < 8 → digitVal (digitChar d) = some d := by decide
+
+/-- `strconv.ParseUint(·, 8, 64)` reads an octal numeral as its positional value. -/
+theorem parseDigits_octal (ds : List Nat) (hd : ∀ d ∈ ds, d < 8) (acc : Nat) :
+    parseDigits 8 (ds.map digitChar) acc = some (octValue ds acc) := by
+  induction ds generalizing acc with
+  | nil => rfl
+  | cons d r ih =>
+    have hd0 : d < 8 := hd d (List.mem_cons_self ..)
+    simp only [List.map_cons, parseDigits, digitVal_digitChar d hd0, hd0, if_true]
+    exact ih (fun x hx => hd x (List.mem_cons_of_mem _ hx)) _
+
+theorem parseUint_octal (ds : List Nat) (hne : ds ≠ []) (hd : ∀ d ∈ ds, d < 8)
+    (hv : octValue ds 0 < 2 ^ 64) :
+    parseUint 8 64 (ds.map digitChar) = some (octValue ds 0) := by
+  unfold parseUint
+  have : ds.map digitChar ≠ [] := by simpa using hne
+  simp only [this, if_false, parseDigits_octal ds hd 0, hv, if_true]
+
 end LA.Coalesce
